@@ -30,9 +30,8 @@
 
   CONTINUED in Props/C13c.lean: the exact face structure after ear clipping (`C13_earclip_structure`).
 
-  NOT PROVED
-  * that the triangles of `FanResult` carry the coordinates of `fanTriangles` (vertex data only moves through
-    `avg v v = v` on equal copies and the final `write_vertex`); both validated by the oracle of c13.py.
+  CONTINUED in Props/C13d.lean: the triangles of `FanResult` carry the coordinates of `fanTriangles` (vertex data only
+  moves through `avg v v = v` on equal copies, merges with valueless fresh darts, and the final `write_vertex`).
 -/
 import Honeycomb.Lemmas.KernelWF2
 import Honeycomb.Props.C13
